@@ -465,3 +465,212 @@ def decode_fmt_template(bs):
             }))
             arg_index += 1
     return out
+
+
+# ---- expression shapes -------------------------------------------------------------------------
+
+_SHAPE_TRANSPARENT = re.compile(
+    r"(::deref$|::deref_mut$|::clone$|::as_ref$|::as_mut$|::borrow$|::borrow_mut$|::as_slice$|::as_str$|::to_owned$|::by_ref$|"
+    r"<impl core::convert::From<T> for T>::from$|Try>::branch$|<T as core::convert::Into<U>>::into$|"
+    r"core::convert::num::<impl core::convert::From<\w+> for \w+>::from$)")
+
+
+def short_name(name):
+    """Last path segments that identify a callee for humans: `Type::method`."""
+    name = re.sub(r"<[^<>]*>", "", name)
+    name = re.sub(r"<[^<>]*>", "", name)
+    name = re.sub(r"<[^<>]*>", "", name)
+    parts = [p for p in name.split("::") if p and not p.startswith("{")]
+    return "::".join(parts[-2:]) if len(parts) >= 2 else name
+
+
+def shape(fn, op_or_local, depth=7, _seen=None):
+    """Canonical string for the expression that computes a value, looking through copies,
+    borrows and transparent calls: e.g. `DateTime::naive_local(DateTime::with_timezone(p2, p1.tz))`.
+    Several reaching definitions are rendered as `alt(a | b)`."""
+    if _seen is None:
+        _seen = frozenset()
+    if isinstance(op_or_local, dict):
+        op = op_or_local
+        if op.get("k") == "const":
+            if "fn" in op:
+                return "fn:" + short_name(op["fn"]["def"])
+            if op.get("closure"):
+                return "closure"
+            if op.get("item") and "promoted" not in op:
+                return "const:" + op["item"].split("::")[-1]
+            if "promoted" in op:
+                body = fn.j.get("promoted", [])
+                if op["promoted"] < len(body):
+                    vals = []
+                    for b in body[op["promoted"]]["blocks"]:
+                        for st in b["stmts"]:
+                            if st["k"] == "assign" and st["dst"]["l"] != 0:
+                                rv = st["rv"]
+                                if rv["k"] == "use" and rv["op"].get("k") == "const":
+                                    vals.append(shape(fn, rv["op"]))
+                                elif rv["k"] == "agg" and rv.get("ak") == "adt" and not rv["ops"]:
+                                    vals.append("%s::%s" % (rv["adt"].split("::")[-1], rv["variant"]))
+                        t = b["term"]
+                        if t["k"] == "call":
+                            vals.append("%s(%s)" % (short_name(call_name(t)), ", ".join(shape(fn, a) for a in t["args"])))
+                    if vals:
+                        return vals[-1]
+                return "promoted"
+            if "str" in op:
+                return repr(op["str"])
+            if "int" in op:
+                return str(op["int"]) if not op.get("variant") else "%s::%s" % (op["ty"].split("::")[-1], op["variant"])
+            return "const"
+        pl = op["pl"]
+        return _shape_place(fn, pl, depth, _seen)
+    return _shape_place(fn, {"l": op_or_local, "p": []}, depth, _seen)
+
+
+def _shape_place(fn, pl, depth, seen):
+    fields = [p for p in pl["p"] if isinstance(p, dict) and ("f" in p or "dc" in p or "ci" in p or "ix" in p)]
+    suffix = ""
+    for p in fields:
+        if "f" in p:
+            suffix += "." + p["n"]
+        elif "dc" in p:
+            suffix += "@" + p["dc"]
+        elif "ci" in p:
+            suffix += "[%s%d]" % ("-" if p["from_end"] else "", p["ci"])
+        else:
+            suffix += "[i]"
+    if fields:
+        sel = _select_aggregate_operand(fn, pl)
+        if sel is not None:
+            return shape(fn, sel, depth, seen)
+    base = _shape_local(fn, pl["l"], depth, seen)
+    return base + suffix
+
+
+def _shape_local(fn, l, depth, seen):
+    if l in seen or depth <= 0:
+        return "_%d" % l
+    seen = seen | {l}
+    alts = []
+    defs = fn.defs_of(l)
+    if 1 <= l <= fn.j["arg_count"]:
+        alts.append("p%d" % l)
+    for bb, n in defs:
+        if n["k"] == "assign":
+            rv = n["rv"]
+            k = rv["k"]
+            if k == "use":
+                alts.append(shape(fn, rv["op"], depth, seen))
+            elif k in ("ref", "rawptr"):
+                alts.append(_shape_place(fn, rv["pl"], depth, seen))
+            elif k == "discr":
+                alts.append("discr(%s)" % _shape_place(fn, rv["pl"], depth, seen))
+            elif k == "cast":
+                inner = shape(fn, rv["op"], depth, seen)
+                alts.append(inner if not rv["ck"].startswith("IntToInt") else "(%s as %s)" % (inner, rv["ty"]))
+            elif k == "bin":
+                alts.append("%s(%s, %s)" % (rv["op"].replace("WithOverflow", ""), shape(fn, rv["a"], depth - 1, seen), shape(fn, rv["b"], depth - 1, seen)))
+            elif k == "un":
+                alts.append("%s(%s)" % (rv["op"], shape(fn, rv["a"], depth - 1, seen)))
+            elif k == "agg":
+                if rv.get("ak") == "adt":
+                    nm = "%s::%s" % (rv["adt"].split("::")[-1], rv["variant"]) if rv["adt"].split("::")[-1] != rv["variant"] else rv["variant"]
+                    alts.append("%s{%s}" % (nm, ", ".join("%s: %s" % (f, shape(fn, o, depth - 1, seen)) for f, o in zip(rv["fields"], rv["ops"]))))
+                elif rv.get("ak") == "closure":
+                    alts.append("closure[%s]" % ", ".join(shape(fn, o, depth - 1, seen) for o in rv["ops"]))
+                else:
+                    alts.append("%s(%s)" % (rv.get("ak"), ", ".join(shape(fn, o, depth - 1, seen) for o in rv["ops"])))
+            elif k == "repeat":
+                alts.append("[%s; %s]" % (shape(fn, rv["op"], depth - 1, seen), rv["n"]))
+            else:
+                alts.append("?")
+        elif n["k"] == "call":
+            names = call_names(n)
+            if any(_SHAPE_TRANSPARENT.search(x) for x in names) and n["args"]:
+                alts.append(shape(fn, n["args"][0], depth, seen))
+            else:
+                alts.append("%s(%s)" % (short_name(names[-1] if names else "indirect"), ", ".join(shape(fn, a, depth - 1, seen) for a in n["args"])))
+    if not alts:
+        return "_%d" % l
+    alts = sorted(set(alts))
+    if len(alts) == 1:
+        return alts[0]
+    return "alt(" + " | ".join(alts) + ")"
+
+
+# ---- enum switch arms --------------------------------------------------------------------------
+
+
+def enum_arms(prog, fn, adt):
+    """For each `match` on a value of enum `adt` in this body: {variant: [blocks reached only
+    through that arm]} plus the switch block. Arms sharing a target (or the default arm) are
+    reported under every variant that reaches them."""
+    a = prog.adts.get(adt)
+    res = []
+    names = discrs = None
+    if a is not None:
+        names = [v["name"] for v in a["variants"]]
+        discrs = a["discrs"] or list(range(len(names)))
+    for bb, b in fn.live_blocks():
+        t = b["term"]
+        if t["k"] != "switch":
+            continue
+        pl = lib.operand_place(t["op"])
+        if pl is None:
+            continue
+        src = None
+        for _, n in fn.defs_of(pl["l"]):
+            if n["k"] == "assign" and n["rv"]["k"] == "discr":
+                src = n["rv"]["pl"]
+        if src is None:
+            continue
+        # type of the matched place
+        ty = None
+        fs = [p for p in src["p"] if isinstance(p, dict) and "f" in p]
+        if fs and not (src["p"] and isinstance(src["p"][-1], dict) and "dc" in src["p"][-1]):
+            ty = fs[-1]["ty"]
+        else:
+            ty = fn.locals[src["l"]]["ty"]
+        if ty is None:
+            continue
+        if adt not in ty.replace("&", "").strip().split("<")[0] and ty.replace("&", "").replace("mut ", "").strip() != adt:
+            continue
+        if names is None:
+            continue
+        arms = {}
+        tg = dict(t["targets"])
+        for name, dv in zip(names, discrs):
+            tgt = tg.get(dv, t["otherwise"])
+            region = [x for x, _ in fn.live_blocks() if fn.dominates(tgt, x)]
+            # exclude blocks that are join points reachable from other arms
+            arms[name] = {"target": tgt, "blocks": region, "explicit": dv in tg}
+        res.append({"bb": bb, "place": src, "arms": arms})
+    return res
+
+
+def shape_in(fn, local, blocks, depth=7):
+    """Shape of `local` considering only its definitions located in `blocks`."""
+    blocks = set(blocks)
+    alts = []
+    for bb, n in fn.defs_of(local):
+        if bb not in blocks:
+            continue
+        if n["k"] == "assign":
+            rv = n["rv"]
+            if rv["k"] == "use":
+                alts.append(shape(fn, rv["op"], depth))
+            elif rv["k"] == "agg" and rv.get("ak") == "adt":
+                nm = "%s::%s" % (rv["adt"].split("::")[-1], rv["variant"])
+                alts.append("%s{%s}" % (nm, ", ".join("%s: %s" % (f, shape(fn, o, depth - 1)) for f, o in zip(rv["fields"], rv["ops"]))))
+            elif rv["k"] == "ref":
+                alts.append(_shape_place(fn, rv["pl"], depth, frozenset()))
+            else:
+                alts.append("?")
+        elif n["k"] == "call":
+            names = call_names(n)
+            if any(_SHAPE_TRANSPARENT.search(x) for x in names) and n["args"]:
+                alts.append(shape(fn, n["args"][0], depth))
+            else:
+                alts.append("%s(%s)" % (short_name(names[-1] if names else "indirect"), ", ".join(shape(fn, a, depth - 1) for a in n["args"])))
+    alts = sorted(set(alts))
+    return alts
